@@ -1641,6 +1641,90 @@ func scGlobalRedeclare(r *h.Rng) *prog {
 	return p
 }
 
+// the conditional operator yields a VALUE (11.12: GetValue of the chosen branch): no `this` for a call through it,
+// nothing for delete to delete, a ReferenceError for an undeclared name under typeof, no direct eval; and the
+// spellings of indirect eval (only the identifier `eval` makes a direct call, 15.1.2.1.1)
+func scCondRef(r *h.Rng) *prog {
+	p := &prog{}
+	p.v("tag", "o", "pp", "c", "x", "e")
+	who := func(k int) m.N { return m.Fn{Body: []m.N{m.Ret(m.Add(m.Num(k), m.Get(m.This(), "tag")))}}.Expr() }
+	p.add(m.X(m.Asg("tag", m.Str("G"))), m.X(m.Asg("x", m.Str("gx"))),
+		m.X(m.Asg("o", m.Obj(m.Prop{K: "tag", V: m.Str("O")}, m.Prop{K: "m", V: who(1)}, m.Prop{K: "n", V: who(2)}))),
+		m.X(m.Asg("pp", m.Obj(m.Prop{K: "a", V: m.Num(1)}, m.Prop{K: "b", V: m.Num(2)}))))
+	var body []m.N
+	for k := 2 + r.Intn(4); k > 0; k-- {
+		c := m.Num(r.Intn(2))
+		if r.Bool() {
+			body = append(body, m.X(m.Asg("c", c)))
+			c = m.Var("c")
+		}
+		switch r.Intn(6) {
+		case 0: // call through a conditional: this is not o
+			body = append(body, lg(m.Call(m.Cond(c, m.Get(m.Var("o"), "m"), m.Get(m.Var("o"), "n")))), lg(m.MCall(m.Var("o"), "m")))
+		case 1: // delete of a conditional deletes nothing
+			body = append(body, lg(m.DelX(m.Cond(c, m.Get(m.Var("pp"), "a"), m.Get(m.Var("pp"), "b")))), lg(m.Get(m.Var("pp"), "a")), lg(m.Get(m.Var("pp"), "b")),
+				lg(m.DelX(m.Val(m.Get(m.Var("pp"), "a")))), lg(m.Get(m.Var("pp"), "a")))
+		case 2: // typeof of a conditional that picks an undeclared name
+			body = append(body, m.Try([]m.N{lg(m.Typeof(m.Cond(c, m.Var("undeclared"), m.Num(1))))}, "e", []m.N{lg(m.Get(m.Var("e"), "name"))}, nil, true, false),
+				lg(m.Typeof(m.Var("undeclared"))))
+		case 3: // with a with object: the identifier branch would carry the object as this
+			body = append(body, m.With(m.Var("o"), lg(m.Call(m.Cond(c, m.Var("m"), m.Var("n")))), lg(m.CallV("m"))))
+		case 4: // plain values, nested
+			body = append(body, lg(m.Cond(c, m.Cond(m.Not(c), m.Num(1), m.Var("x")), m.Add(m.Var("x"), m.Num(1)))))
+		default: // indirect eval in one of its spellings (padding changes the spelling): code sees the global x
+			var pad []m.N
+			for i := r.Intn(4); i > 0; i-- {
+				pad = append(pad, m.X(m.Num(i)))
+			}
+			body = append(body, lg(m.EvalI(nil, nil, append(pad, m.X(m.Var("x"))))), lg(m.EvalD(nil, nil, []m.N{m.X(m.Var("x"))})))
+		}
+	}
+	if r.Bool() {
+		p.decl("f", m.Fn{Name: "f", Vars: []string{"x", "c"}, Body: append([]m.N{m.X(m.Asg("x", m.Str("lx")))}, append(body, m.Ret(m.Var("x")))...)})
+		p.add(lg(m.CallV("f")), lg(m.MCall(m.Obj(m.Prop{K: "tag", V: m.Str("T")}, m.Prop{K: "f", V: m.Var("f")}), "f")))
+	} else {
+		p.add(body...)
+	}
+	return p
+}
+
+// an assignment to a name that is unresolvable when the left-hand side is evaluated, but which the right-hand side
+// makes a property of the global object: PutValue is [[Put]] on the global object (8.7.2 step 3) - a read-only
+// property stays, attributes are kept
+func scLateGlobal(r *h.Rng) *prog {
+	p := &prog{}
+	p.v("cnt", "k", "base")
+	p.add(m.X(m.Asg("base", m.Num(0))), m.ForIn(false, "k", m.This(), inc("base", 1)))
+	name := "q"
+	var mk m.N
+	switch r.Intn(6) {
+	case 0:
+		mk = m.X(m.DefRO(m.This(), name, m.Num(1)))
+	case 1:
+		mk = m.X(m.DefFix(m.This(), name, m.Num(1)))
+	case 2:
+		mk = m.X(m.DefNE(m.This(), name, m.Num(1)))
+	case 3:
+		mk = m.X(m.Set(m.This(), name, m.Num(1)))
+	case 4:
+		mk = m.X(m.EvalI([]string{name}, nil, []m.N{m.VarS(name, m.Num(1))}))
+	default:
+		mk = m.X(m.Num(0))
+	}
+	p.decl("g", m.Fn{Name: "g", Body: []m.N{mk, m.Ret(m.Num(5))}})
+	asg := m.X(m.Asg(name, m.CallV("g")))
+	if r.Bool() {
+		p.decl("f", m.Fn{Name: "f", Body: []m.N{asg, m.Ret(m.Typeof(m.Var(name)))}})
+		p.add(lg(m.CallV("f")))
+	} else {
+		p.add(asg)
+	}
+	p.add(lg(m.Var(name)), m.X(m.Asg("cnt", m.Num(0))), m.ForIn(false, "k", m.This(), inc("cnt", 1)), lg(m.Sub(m.Var("cnt"), m.Var("base"))),
+		m.X(m.Asg(name, m.Num(9))), lg(m.Var(name)), lg(m.DelV(name)), lg(m.Typeof(m.Var(name))),
+		m.X(m.Asg(name, m.Num(3))), lg(m.Var(name)), lg(m.DelV(name)))
+	return p
+}
+
 func init() {
 	fnScenarios = append(fnScenarios, []fnScenario{
 		{"with-lookup", scWithLookup}, {"with-closure", scWithClosure}, {"with-this", scWithThis}, {"with-var", scWithVar},
@@ -1650,5 +1734,5 @@ func init() {
 		{"labels", scLabels}, {"dup-params", scDupParams}, {"order", scOrder},
 		{"label-capture", scLabelCapture}, {"eval-throw", scEvalThrow},
 		{"hoist-collide", scHoistCollide}, {"label-stale", scLabelStale}, {"host-reentry", scHostReentry},
-		{"bind-chain", scBindChain}, {"forin-init", scForInInit}, {"eval-delete", scEvalDelete}, {"args-define", scArgsDefine}, {"global-redeclare", scGlobalRedeclare}}...)
+		{"bind-chain", scBindChain}, {"forin-init", scForInInit}, {"eval-delete", scEvalDelete}, {"args-define", scArgsDefine}, {"global-redeclare", scGlobalRedeclare}, {"cond-ref", scCondRef}, {"late-global", scLateGlobal}}...)
 }
